@@ -157,6 +157,17 @@ class C13(Check):
             for bnd in (0, 1, 3):
                 for con in (False, True):
                     out.append(("crop_to_true_mask", bnd, con))
+        # the other routes into the crop family: bounds taken from the landmarks / a pointcloud, with a pixel margin or
+        # a margin proportional to the smallest / largest extent; each must honour the same boundary contract
+        if not st["shard"] or st["shard"][0] == 0 or level > 0:
+            for con in (False, True):
+                for route in ("crop_to_landmarks", "crop_to_pointcloud"):
+                    for bnd in (0, 2, 40):
+                        out.append(("crop_route", route, bnd, None, con))
+                for route in ("crop_to_landmarks_proportion", "crop_to_pointcloud_proportion"):
+                    for prop in (0.0, 0.5, 20.0):
+                        for minimum in (True, False):
+                            out.append(("crop_route", route, prop, minimum, con))
         return out
 
     def _patch_ops(self, st):
@@ -190,7 +201,7 @@ class C13(Check):
 
     # ------------------------------------------------------------------ transitions
     def apply(self, st, op, verify=True):
-        if op[0] in ("crop", "crop_to_true_mask"):
+        if op[0] in ("crop", "crop_to_true_mask", "crop_route"):
             return self._apply_crop(st, op, verify)
         before = observe(st["img"]) if verify else None
         fails = getattr(self, "_apply_" + op[0].replace("-", "_"))(st, op, verify)
@@ -210,6 +221,12 @@ class C13(Check):
         if op[0] == "crop":
             mn, mx, con = np.array(op[1]), np.array(op[2]), op[3]
             where = "crop"
+        elif op[0] == "crop_route":
+            route, par, minimum, con = op[1], op[2], op[3], op[4]
+            rng = lm.max(axis=0) - lm.min(axis=0)
+            bnd = par if minimum is None else par * (rng.min() if minimum else rng.max())
+            mn, mx = lm.min(axis=0) - bnd, lm.max(axis=0) + bnd
+            where = route
         else:
             bnd, con = op[1], op[2]
             idx = np.argwhere(mask)
@@ -225,6 +242,18 @@ class C13(Check):
         try:
             if op[0] == "crop":
                 res, tr = img.crop(mn.copy(), mx.copy(), constrain_to_boundary=con, return_transform=True)
+            elif op[0] == "crop_route":
+                from menpo.shape import PointCloud
+
+                kw = {"constrain_to_boundary": con, "return_transform": True}
+                if route == "crop_to_landmarks":
+                    res, tr = img.crop_to_landmarks(group="pc", boundary=par, **kw)
+                elif route == "crop_to_pointcloud":
+                    res, tr = img.crop_to_pointcloud(PointCloud(lm.copy()), boundary=par, **kw)
+                elif route == "crop_to_landmarks_proportion":
+                    res, tr = img.crop_to_landmarks_proportion(par, group="pc", minimum=minimum, **kw)
+                else:
+                    res, tr = img.crop_to_pointcloud_proportion(PointCloud(lm.copy()), par, minimum=minimum, **kw)
             else:
                 res, tr = img.crop_to_true_mask(boundary=bnd, constrain_to_boundary=con, return_transform=True)
         except ImageBoundaryError as e:
@@ -579,6 +608,8 @@ class C13(Check):
     # ------------------------------------------------------------------ reporting
     def vacuity(self, notes, stats):
         need = ["crop:refused-expected", "crop:wholly-outside", "crop:inside", "crop:clipped", "crop_to_true_mask:inside", "extract:outside-filled", "extract:sample0-c1", "extract:sample0-c5", "extract:slice-c4", "roundtrip:c5", "extract-frac:points-checked", "extract-single:o0-nearest", "extract-single:o1-constant", "extract-reused:o0", "extract-reused:o1"]
+        for route in ("crop_to_landmarks", "crop_to_pointcloud", "crop_to_landmarks_proportion", "crop_to_pointcloud_proportion"):
+            need += ["%s:refused-expected" % route, "%s:clipped" % route, "%s:inside" % route]
         if True:
             need += ["crop_to_true_mask:refused-expected", "crop_to_true_mask:clipped"]
         return ["outcome %s never produced" % n for n in need if not notes.get(n)]
